@@ -287,7 +287,8 @@ class HTTP(BaseComponent):
             res.close = not parser.should_keep_alive()
 
         clen = int(req.headers.get('Content-Length', '0'))
-        if (clen or req.headers.get('Transfer-Encoding') == 'chunked') and not parser.is_message_complete():
+        chunked = req.headers.get('Transfer-Encoding', '').lower() == 'chunked'  # as the parser decides it
+        if (clen or chunked) and not parser.is_message_complete():
             return None
 
         if hasattr(sock, 'getpeercert'):
